@@ -105,7 +105,7 @@ SIG = {
 
 def corpus_program():
     # shallow parent, a default argument is not possible with Program: two levels + a duplicate call (CSE) + a sibling
-    return ctl_db.Program(3, [[(1, 0), (2, 1)], [(2, 0)], []], [True, False, True], [(0, 1)], ns="gc22")
+    return ctl_db.Program(3, [[(1, 0), (2, 1, 1)], [(2, 0)], []], [True, False, True], [(0, 1)], ns="gc22")
 
 
 def shape(d):
